@@ -28,13 +28,17 @@ def sec_to_public_pair(
         if not strict:
             # hybrid form: the low bit of the first byte is the parity of y
             isok = isok or (sec0 == (b"\7" if y & 1 else b"\6"))
+        if generator and max(x, y) >= generator.p():
+            # not a field element: a second encoding of the coordinate
+            isok = False
         if isok:
             return (x, y)
     elif len(sec) == 1 + byte_count:
         if sec0 in (b"\2", b"\3"):
             is_y_odd = sec0 != b"\2"
             assert generator is not None
-            return cast(tuple[int, int], generator.points_for_x(x)[is_y_odd])
+            if x < generator.p():
+                return cast(tuple[int, int], generator.points_for_x(x)[is_y_odd])
     raise EncodingError("bad sec encoding for public key")
 
 
